@@ -27,6 +27,7 @@ FRESH_METHODS = {"clone", "size", "stride", "dim", "numel", "item", "tolist", "a
 MUTATORS = {"append", "extend", "insert", "remove", "pop", "clear", "update", "setdefault", "add", "discard", "popitem", "sort", "reverse",
             "register_buffer", "register_parameter", "add_module", "save_for_backward", "load_state_dict", "write", "writelines", "rmtree", "makedirs", "mark_dirty"}
 TENSOR_INPLACE_EXEMPT = {"requires_grad_"}
+TENSOR_FIELDS = {"_scale", "_data", "_zeropoint", "weight", "bias", "input_scale", "output_scale", "data", "grad"}
 
 
 @dataclass
@@ -237,6 +238,12 @@ class EffectGraph:
         loc = _Locals(self, fi)
         is_init = fi.fn.name in ("__init__", "__new__")
         for n in _own_nodes(fi.fn):
+            if isinstance(n, ast.AugAssign) and isinstance(n.target, ast.Name):
+                # `s = t._scale; s *= x` updates the tensor both names denote: an in-place write through a local alias of a tensor field
+                for v in loc.bind.get(n.target.id, []):
+                    if isinstance(v, ast.Attribute) and v.attr in TENSOR_FIELDS:
+                        fi.effects.append(Effect("inplace", f"{n.target.id} (alias of {U(v)})", loc.roots(v), n.lineno, True))
+                        break
             if isinstance(n, (ast.Assign, ast.AugAssign, ast.AnnAssign)):
                 targets = n.targets if isinstance(n, ast.Assign) else [n.target]
                 for t in targets:
